@@ -1048,8 +1048,26 @@ func (b *bitstream) readN(n uint64) ([]byte, error) {
 		return nil, nil
 	}
 
-	bs := make([]byte, n)
-	actual, err := io.ReadFull(b.in, bs)
+	// The declared length is untrusted input: allocate at most a chunk up front and let
+	// the buffer grow only as fast as data actually arrives.
+	const readNChunk = 1 << 16
+	var bs []byte
+	var actual int
+	var err error
+	if n <= readNChunk {
+		bs = make([]byte, n)
+		actual, err = io.ReadFull(b.in, bs)
+	} else {
+		if n > math.MaxInt32 {
+			// More than a Go slice can usefully hold; the input cannot be this long either.
+			return nil, &UnexpectedEOFError{b.pos}
+		}
+		var buf bytes.Buffer
+		var copied int64
+		copied, err = io.CopyN(&buf, b.in, int64(n))
+		actual = int(copied)
+		bs = buf.Bytes()
+	}
 	b.pos += uint64(actual)
 
 	if err == io.EOF || err == io.ErrUnexpectedEOF {
